@@ -72,6 +72,82 @@ pub fn hash_scripted(
   }
 }
 
+/// A `BufRead` whose every `read` call is scripted: `Some(chunk)` returns the chunk (clipped
+/// to the window offered; the rest stays for the next call), `None` returns an I/O error.
+struct ScriptedSteps {
+  steps: VecDeque<Option<Vec<u8>>>,
+}
+
+impl Read for ScriptedSteps {
+  fn read(&mut self, buf: &mut [u8]) -> io::Result<usize> {
+    loop {
+      match self.steps.front_mut() {
+        None => return Ok(0),
+        Some(None) => {
+          self.steps.pop_front();
+          return Err(io::Error::new(io::ErrorKind::Other, "scripted read error"));
+        }
+        Some(Some(front)) if front.is_empty() => {
+          self.steps.pop_front();
+        }
+        Some(Some(front)) => {
+          let n = front.len().min(buf.len());
+          if n == 0 {
+            return Ok(0);
+          }
+          buf[..n].copy_from_slice(&front[..n]);
+          front.drain(..n);
+          if front.is_empty() {
+            self.steps.pop_front();
+          }
+          return Ok(n);
+        }
+      }
+    }
+  }
+}
+
+impl BufRead for ScriptedSteps {
+  fn fill_buf(&mut self) -> io::Result<&[u8]> {
+    unimplemented!("the hasher only calls read")
+  }
+
+  fn consume(&mut self, _amt: usize) {
+    unimplemented!("the hasher only calls read")
+  }
+}
+
+/// One `Hasher` over a list of scripted files (one running piece state across files, then
+/// `finish`): (bencoded pieces string, per file (length, md5 hex)).
+#[allow(clippy::type_complexity)]
+pub fn hash_scripted_files(
+  md5: bool,
+  piece_length: usize,
+  files: Vec<Vec<Option<Vec<u8>>>>,
+) -> Result<(Vec<u8>, Vec<(u64, Option<String>)>), String> {
+  let mut scripted = files
+    .into_iter()
+    .map(|steps| ScriptedSteps {
+      steps: steps.into(),
+    })
+    .collect::<Vec<ScriptedSteps>>();
+  let mut readers = scripted
+    .iter_mut()
+    .map(|reader| reader as &mut dyn BufRead)
+    .collect::<Vec<&mut dyn BufRead>>();
+  let (infos, pieces) = Hasher::new(md5, piece_length, None)
+    .verif_hash_readers(&mut readers)
+    .map_err(|e| e.to_string())?;
+  let pieces = bendy::serde::ser::to_bytes(&pieces).map_err(|e| e.to_string())?;
+  Ok((
+    pieces,
+    infos
+      .into_iter()
+      .map(|(md5sum, length)| (length.count(), md5sum.map(|d| d.to_string())))
+      .collect(),
+  ))
+}
+
 pub fn pick_piece_length(content_size: u64) -> u64 {
   PieceLengthPicker::from_content_size(Bytes(content_size)).count()
 }
